@@ -14,7 +14,7 @@ META = {
     "level": "fault_enumeration",
     "technique": "runtime monitoring under a deterministic scheduler with virtual time: WebSocketApp.run_forever runs as an actor against scripted peers; endings are injected at enumerated moments (server events, close() from each callback, close() from a second actor preempting the loop at every source line - complete one-preemption sweep -, KeyboardInterrupt in callbacks); deadlock and virtual-horizon detectors decide termination; the callback trace, return value, ping-thread liveness and transport state are checked against the ending class known to the generator",
     "claim": "For every generated ending (server close without body / with code / with code and reason / in the same segment as data, end of stream, reset, illegal frame, invalid UTF-8, ping timeout against a silent peer, refused connection, rejected handshake, close() from every callback, close() from a second thread at every line of the loop, KeyboardInterrupt in callbacks; built-in and external dispatcher; each followed by a second run of the same object) run_forever returned before the virtual horizon, on_close was called exactly once and after every other callback with the server's close code and reason (None, None otherwise), no transport and no ping thread was left, and the return value was False for close-frame/own-close endings and True for error endings.",
-    "trusted": "scheduler/virtual clock (wsverif/sim/sched.py); simulated network; preemption granularity = source lines + sync/IO operations; at most one forced preemption per schedule in the sweep (two sampled)",
+    "trusted": "scheduler/virtual clock (wsverif/sim/sched.py); simulated network (cross-checked in this run against real loopback TCP + real threads on 30 timing-free scenarios: counter fidelity_scenarios_agree); preemption granularity = source lines + sync/IO operations; at most one forced preemption per schedule in the sweep (two sampled)",
     "rule": "case = (scenario, dispatcher, schedule decision list / preemption point); distinct by that; non-trivial when the run reached an established connection or an injected ending and was followed by a second run",
     "exhaustive": {"quick": False, "thorough": True},
     "exhaustive_space": {"thorough": "all single preemptions (every line/sync/IO point of the loop actor after arming) for 4 cross-thread-close scenarios", "quick": "strided single-preemption sweep (<= 250 points per scenario)"},
@@ -324,6 +324,12 @@ def run(res, tier, seed, shard, nshards):
     jobs.append(("sweep-start", sweep_scs[0], 1))
     for sc in sweep_scs:
         jobs.append(("random2", sc, 0))
+    # simulator fidelity: timing-free scenarios replayed on real loopback TCP with real threads
+    from .. import fidelity
+    byname = {sc["name"]: sc for sc in SC}
+    for nm in fidelity.TIMING_FREE:
+        if nm in byname:
+            jobs.append(("fidelity", byname[nm], 0))
 
     for ji, job in enumerate(jobs):
         if ji % nshards != shard:
@@ -333,6 +339,16 @@ def run(res, tier, seed, shard, nshards):
             run_scenario(res, W, sc, sched.NonPreemptive(), "plain", dispatcher_kind=arg)
             res.count("scenario_runs")
             res.sample({"scenario": sc["name"], "dispatcher": arg or "builtin", "ending": sc["ending"]}, cap=4)
+        elif kind == "fidelity":
+            ok, detail = fidelity.compare(W, sc)
+            if ok is True:
+                res.count("fidelity_scenarios_agree")
+            elif ok is None:
+                res.count("fidelity_scenarios_skipped")
+                res.notes["fidelity_skipped:" + sc["name"]] = detail[:200]
+            else:
+                res.count("fidelity_scenarios_disagree")
+                res.inconc(f"simulator fidelity: scenario {sc['name']}: {detail[:400]}")
         elif kind in ("sweep", "sweep-start"):
             arm_at = "start" if kind == "sweep-start" else "on_open"
             r0, S0 = run_scenario(res, W, sc, sched.NonPreemptive(), "baseline", with_second=False, line_points=True, closer_at=1.0 if arm_at == "on_open" else 0.0, arm_at=arm_at)
